@@ -45,15 +45,19 @@ def main():
         pkgdir = dirs[-1].lstrip("./").rstrip("/") if dirs else ""
         pkgdir = re.sub(r"/\.\.\.$", "", pkgdir)
         moddir = wt
-        if pkgdir.startswith("pkg/") and "goctl" in head:
+        modflag = ""
+        if pid == "C20" or (pkgdir.startswith("pkg/") and "goctl" in head):
             moddir = os.path.join(wt, "tools/goctl")
+            modflag = " -modfile " + os.path.join(VERIF, "harness/C20/goctl.mod")
+            if pkgdir.startswith("tools/goctl/"):
+                pkgdir = pkgdir[len("tools/goctl/"):]
         runm = re.search(r"-run[ =]+'?\"?([^\s'\"]+)", cmdline)
         runpat = runm.group(1) if runm else "."
         if not pkgdir:
             print("cannot find package dir in demo header"); sys.exit(2)
         dst = os.path.join(moddir, pkgdir, "zz_seed_demo_test.go")
         shutil.copy(demo, dst)
-        tcmd = "go test -vet=off -count=1 -run '%s' ./%s/" % (runpat, pkgdir)
+        tcmd = "go test -vet=off -count=1%s -run '%s' ./%s/" % (modflag, runpat, pkgdir)
         rc0, out0 = sh(tcmd, cwd=moddir)
         res["ran"].append(tcmd + " (without the change) -> exit %d" % rc0)
         res["demo_without_change"] = "pass" if rc0 == 0 else "FAIL"
@@ -65,7 +69,7 @@ def main():
         res["demo_with_change"] = "fail" if rc1 != 0 else "PASSES"
         res["demo_with_change_tail"] = out1[-600:]
         os.remove(dst)
-        rcb, outb = sh("go build ./...", cwd=moddir)
+        rcb, outb = sh("go build%s ./..." % modflag, cwd=moddir)
         res["build"] = "ok" if rcb == 0 else outb[-400:]
         _, files = sh("git diff --name-only", cwd=wt)
         pk = sorted({os.path.dirname(f) for f in files.split() if f.endswith(".go") or f.endswith(".lua")})
@@ -75,7 +79,7 @@ def main():
             cwd = wt
             if d.startswith("tools/goctl/"):
                 cwd, rel = os.path.join(wt, "tools/goctl"), d[len("tools/goctl/"):]
-            c = "go test -vet=off -count=1 ./%s/..." % rel
+            c = "go test -vet=off -count=1%s ./%s/..." % (modflag if cwd != wt else "", rel)
             rct, outt = sh(c, cwd=cwd)
             if rct != 0:  # timing-sensitive suites: one retry
                 rct, outt = sh(c, cwd=cwd)
@@ -94,8 +98,6 @@ def main():
         res["detected"] = rcc == 1 and "VIOLATION property=" + pid in outc
     finally:
         sh(["git", "-C", "/repo", "worktree", "remove", "--force", wt])
-        # replays written while checking the changed tree are not evidence about /repo
-        shutil.rmtree(os.path.join(VERIF, "replays", pid), ignore_errors=True)
     print(json.dumps(res, indent=1))
     if keep:
         d = os.path.join(VERIF, "seeded", keep)
